@@ -83,6 +83,14 @@ def node_level(ck, tier):
                              {'label': 'negative-elapsed', 'prefix': [m.block.serialize().hex() for m in nodes],
                               'block': cand.serialize().hex(), 'now': ts, 'period': 4, 'span': env.span, 'interval': None})
     import check_C12
+    for tz_ in ('America/New_York', 'Asia/Tokyo'):
+        try:
+            check_C12.pool_then_mine_scenario(ck, 50, tier, tz=tz_)      # the miner's clock in time zones on both sides of UTC
+        except Exception:
+            import traceback
+            tb = traceback.format_exc()
+            if 'could not mine a block' not in tb:
+                ck.disagree('miner time-zone scenario crashed: %s' % tb[-400:], {})
     for trial in range(2 if tier == 'quick' else 6):
         try:
             check_C12.scenario(ck, 100 + trial, tier, [], [], clock_offsets=(0, 1, 30, 4000))
